@@ -196,30 +196,27 @@ def validSpec (c : Elements) (d : DeviceInfo) : Prop :=
 
 /-! ## model-side encoder: the layout of Matter 6.3.1, written with the TLV writer model -/
 
-def u16Leaf (tag n : Nat) : Value := .leaf (.ctx tag) (Prim.mkUint n)
+def uintLeaf (tag n : Nat) : Value := .leaf (.ctx tag) (Prim.mkUint n)
 
-def pidValues : List Nat → Values
-  | [] => .nil
-  | p :: rest => .cons (.leaf .anon (Prim.mkUint p)) (pidValues rest)
+def pidValues (pids : List Nat) : List Value := pids.map fun p => .leaf .anon (Prim.mkUint p)
 
-def paaValues : List Bytes → Values
-  | [] => .nil
-  | k :: rest => .cons (.leaf .anon (Prim.mkStr k)) (paaValues rest)
+def paaValues (paa : List Bytes) : List Value := paa.map fun k => .leaf .anon (Prim.mkStr k)
 
-def optFields (c : Elements) : Values :=
-  let paa : Values := if c.authorizedPaa = [] then .nil else .cons (.cont (.ctx 11) .array (paaValues c.authorizedPaa)) .nil
-  match c.dacOrigin with
-  | some (v, p) => .cons (u16Leaf 9 v) (.cons (u16Leaf 10 p) paa)
-  | none => paa
+/-- tags 9 / 10 (together) and tag 11, each only when present -/
+def optFields (c : Elements) : List Value :=
+  (match c.dacOrigin with
+    | some (v, p) => [uintLeaf 9 v, uintLeaf 10 p]
+    | none => []) ++
+  (if c.authorizedPaa = [] then [] else [.cont (.ctx 11) .array (Values.ofList (paaValues c.authorizedPaa))])
 
-def toValue (c : Elements) : Value :=
-  .cont .anon .struct
-    (.cons (u16Leaf 0 c.formatVersion) (.cons (u16Leaf 1 c.vendorId)
-    (.cons (.cont (.ctx 2) .array (pidValues c.productIds))
-    (.cons (u16Leaf 3 c.deviceTypeId)
-    (.cons (.leaf (.ctx 4) (Prim.mkUtf8 c.certificateId))
-    (.cons (u16Leaf 5 c.securityLevel) (.cons (u16Leaf 6 c.securityInformation)
-    (.cons (u16Leaf 7 c.versionNumber) (.cons (u16Leaf 8 c.certificationType) (optFields c))))))))))
+def fieldList (c : Elements) : List Value :=
+  [uintLeaf 0 c.formatVersion, uintLeaf 1 c.vendorId,
+   .cont (.ctx 2) .array (Values.ofList (pidValues c.productIds)),
+   uintLeaf 3 c.deviceTypeId, .leaf (.ctx 4) (Prim.mkUtf8 c.certificateId),
+   uintLeaf 5 c.securityLevel, uintLeaf 6 c.securityInformation, uintLeaf 7 c.versionNumber,
+   uintLeaf 8 c.certificationType] ++ optFields c
+
+def toValue (c : Elements) : Value := .cont .anon .struct (Values.ofList (fieldList c))
 
 def encodeElements (c : Elements) : Bytes := encode (toValue c)
 
